@@ -2,3 +2,4 @@ import CanopenProofs.C04
 import CanopenProofs.C05
 import CanopenProofs.C02
 import CanopenProofs.C06
+import CanopenProofs.C01
